@@ -219,7 +219,10 @@ func (rw *rewriter) run() ([]byte, error) {
 		case "C":
 			rw.errorf(im.Pos(), "cgo not supported")
 		case "sync/atomic":
-			rw.errorf(im.Pos(), "sync/atomic is not modelled by the simulator")
+			// atomic operations never block: they stay real operations (the race detector treats
+			// them as synchronisation, as in the real program). A busy-wait loop on an atomic would
+			// only make progress under a preempting schedule; the yield budget reports it as a hang.
+			rep.Counts["sync/atomic import"]++
 		case "os/signal", "context":
 			// context is allowed as long as no timers hide in it; flag deadlines below
 		}
